@@ -113,6 +113,9 @@ class ThriftSerialPeer(FramedPeer):
       sock.deliver_eof()
     elif kind == 'reset':
       sock.deliver_reset()
+    elif kind == 'etimedout':
+      import errno
+      sock.deliver_reset(errno.ETIMEDOUT)      # the kernel gives up on the connection (keep-alive / retransmission timeout)
     elif kind == 'eof_mid':
       sock.deliver(frame[:max(1, len(frame) // 2)])
       sock.deliver_eof()
